@@ -680,4 +680,216 @@ end
 /-- the displayed text of an expression in inline mode (no line length, one line) -/
 def render (T : PrecTable) (e : Expr) : List Char := flat (compile T none e)
 
+
+/-! ## Specification side: Python's reading of a concrete expression text
+
+`Doc` is a concrete syntax tree: exactly the token structure of a displayed text, with every
+parenthesis, comma and `*` explicit.  `Doc.flatten` spells it; `parseDoc n d` is the abstract tree
+Python's grammar assigns to that spelling when it is read at a non-terminal of binding level `n`
+(`none` = not derivable there), written from the productions of `python.gram` (3.12):
+
+    expression:   disjunction 'if' disjunction 'else' expression | disjunction | lambdef     level 1
+    disjunction:  conjunction ('or' conjunction)+                                             level 2
+    conjunction:  inversion ('and' inversion)+                                                level 3
+    inversion:    'not' inversion | comparison                                                level 4
+    comparison:   bitwise_or (compare_op bitwise_or)+                                         level 5
+    bitwise_or:   bitwise_or '|' bitwise_xor          (left recursive = left associative)     level 6
+    bitwise_xor … bitwise_and … shift_expr … sum … term                                       levels 7-11
+    factor:       ('+'|'-'|'~') factor | power                                                level 12
+    power:        await_primary '**' factor                                                   level 13
+    await_primary                                                                             level 14
+    primary / atom: NAME, NUMBER, STRING, group, tuple, list, set, dict, call, subscript      level 15
+    star_named_expression: '*' bitwise_or | named_expression                                  level 0
+    group:  '(' named_expression ')'         tuple: '(' [star_named_expression ',' [star_named_expressions]] ')'
+    slices: slice !',' | ','.(slice | starred_expression)+ [',']       starred_expression: '*' expression
+    args:   ','.(starred_expression | expression)+ …   kwarg: NAME '=' expression | '**' expression
+    dict:   '{' ','.(expression ':' expression | '**' bitwise_or)* '}'
+
+The result is again a `Doc`, in normal form (no `group`, tuples as `tuple _ false`, `bare` index
+lists as tuples, no spacing flag).  This reading is compared with CPython's parser in the check
+(stream `grammar`), independently of the colourizer model. -/
+
+inductive Doc
+  /-- NAME / NUMBER / STRING / dotted name / `...` / a delegated text assumed self-delimiting -/
+  | atom (s : List Char)
+  /-- `( d )` -/
+  | group (d : Doc)
+  | unary (op : UOp) (d : Doc)
+  /-- `sp`: written with spaces around the operator (astor) -/
+  | binary (sp : Bool) (op : BOp) (l r : Doc)
+  | boolop (op : LOp) (ds : List Doc)
+  | compare (l : Doc) (ops : List COp) (rs : List Doc)
+  | ifExp (b t o : Doc)
+  /-- `( d, d )`, with a trailing comma when `trailing` -/
+  | tuple (ds : List Doc) (trailing : Bool)
+  /-- `d, d` as written between the brackets of a subscript -/
+  | bare (ds : List Doc)
+  | list (ds : List Doc)
+  /-- `set([ d, d ])`: the documented spelling of a set display -/
+  | setCall (ds : List Doc)
+  /-- `{ k: v, **v }`; key `absent` = `**` -/
+  | dict (ks vs : List Doc)
+  | call (f : Doc) (args : List Doc) (kwn : List (Option (List Char))) (kwv : List Doc)
+  | subscript (v idx : Doc)
+  | starred (d : Doc)
+  | absent
+  /-- text that is not an expression (`??`) -/
+  | junk (s : List Char)
+  deriving Repr, Inhabited
+
+def BOp.level : BOp → Nat
+  | .bitOr => 6 | .bitXor => 7 | .bitAnd => 8 | .lShift => 9 | .rShift => 9 | .add => 10 | .sub => 10
+  | .mult => 11 | .matMult => 11 | .div => 11 | .mod => 11 | .floorDiv => 11 | .pow => 13
+/-- level the left operand must be derivable at: the same non-terminal (left recursion); for `**`
+the `await_primary` -/
+def BOp.leftMin (op : BOp) : Nat := if op = .pow then 14 else op.level
+/-- right operand: the next tighter non-terminal; for `**` a `factor` -/
+def BOp.rightMin (op : BOp) : Nat := if op = .pow then 12 else op.level + 1
+def UOp.level : UOp → Nat
+  | .not => 4 | _ => 12
+def LOp.level : LOp → Nat
+  | .or => 2 | .and => 3
+
+/-- dictionary items from the keys and the spelled keys / values -/
+def dictTexts : List Doc → List (List Char) → List (List Char) → List (List Char)
+  | k :: ks, kt :: kts, vt :: vts =>
+    (match k with
+     | .absent => ['*', '*'] ++ vt
+     | _ => kt ++ [':', ' '] ++ vt) :: dictTexts ks kts vts
+  | _, _, _ => []
+
+def kwTexts : List (Option (List Char)) → List (List Char) → List (List Char)
+  | n :: ns, vt :: vts =>
+    (match n with
+     | some a => a ++ ['='] ++ vt
+     | none => ['*', '*'] ++ vt) :: kwTexts ns vts
+  | _, _ => []
+
+mutual
+def Doc.flatten : Doc → List Char
+  | .atom s => s
+  | .group d => '(' :: (d.flatten ++ [')'])
+  | .unary op d => op.sym ++ d.flatten
+  | .binary sp op l r =>
+    l.flatten ++ (if sp then [' '] ++ op.sym ++ [' '] else op.sym) ++ r.flatten
+  | .boolop op ds => joinSep op.sym (Doc.flattenList ds)
+  | .compare l ops rs => l.flatten ++ cmpTail ops (Doc.flattenList rs)
+  | .ifExp b t o => b.flatten ++ " if ".toList ++ t.flatten ++ " else ".toList ++ o.flatten
+  | .tuple ds tr => '(' :: (joinSep [',', ' '] (Doc.flattenList ds) ++ (if tr then [','] else []) ++ [')'])
+  | .bare ds => joinSep [',', ' '] (Doc.flattenList ds)
+  | .list ds => '[' :: (joinSep [',', ' '] (Doc.flattenList ds) ++ [']'])
+  | .setCall ds => "set([".toList ++ joinSep [',', ' '] (Doc.flattenList ds) ++ "])".toList
+  | .dict ks vs =>
+    '{' :: (joinSep [',', ' '] (dictTexts ks (Doc.flattenList ks) (Doc.flattenList vs)) ++ ['}'])
+  | .call f args kwn kwv =>
+    f.flatten ++ ['('] ++
+      joinSep [',', ' '] (Doc.flattenList args ++ kwTexts kwn (Doc.flattenList kwv)) ++ [')']
+  | .subscript v idx => v.flatten ++ ['['] ++ idx.flatten ++ [']']
+  | .starred d => '*' :: d.flatten
+  | .absent => "None".toList
+  | .junk s => s
+def Doc.flattenList : List Doc → List (List Char)
+  | [] => []
+  | d :: ds => d.flatten :: Doc.flattenList ds
+end
+
+def sequence {α} : List (Option α) → Option (List α)
+  | [] => some []
+  | some x :: rest => (sequence rest).map (x :: ·)
+  | none :: _ => none
+
+/-- value `i` of a dict is read after `**` (a `bitwise_or`) when key `i` is absent, else as an
+expression; `v6`/`v1` are the values read both ways -/
+def pickVals : List Doc → List (Option Doc) → List (Option Doc) → List (Option Doc)
+  | k :: ks, a :: as, b :: bs =>
+    (match k with
+     | .absent => a
+     | _ => b) :: pickVals ks as bs
+  | _, _, _ => []
+
+mutual
+def parseDoc (n : Nat) : Doc → Option Doc
+  | .atom s => some (.atom s)
+  | .junk _ => none
+  | .absent => none
+  | .bare _ => none
+  | .group d => parseDoc 1 d
+  | .unary op d =>
+    if n ≤ op.level then (parseDoc op.level d).map (Doc.unary op) else none
+  | .binary _ op l r =>
+    if n ≤ op.level then
+      match parseDoc op.leftMin l, parseDoc op.rightMin r with
+      | some l', some r' => some (.binary false op l' r')
+      | _, _ => none
+    else none
+  | .boolop op ds =>
+    if n ≤ op.level ∧ 2 ≤ ds.length then
+      (sequence (parseEach (op.level + 1) ds)).map (Doc.boolop op)
+    else none
+  | .compare l ops rs =>
+    if n ≤ 5 ∧ 1 ≤ ops.length ∧ ops.length = rs.length then
+      match parseDoc 6 l, sequence (parseEach 6 rs) with
+      | some l', some rs' => some (.compare l' ops rs')
+      | _, _ => none
+    else none
+  | .ifExp b t o =>
+    if n ≤ 1 then
+      match parseDoc 2 b, parseDoc 2 t, parseDoc 1 o with
+      | some b', some t', some o' => some (.ifExp b' t' o')
+      | _, _, _ => none
+    else none
+  | .tuple [] tr => if tr then none else some (.tuple [] false)
+  | .tuple [d] false => parseDoc 1 d          -- `( d )` is a group
+  | .tuple ds _ => (sequence (parseEach 0 ds)).map (Doc.tuple · false)
+  | .list ds => (sequence (parseEach 0 ds)).map Doc.list
+  | .setCall ds => (sequence (parseEach 0 ds)).map Doc.setCall
+  | .dict ks vs =>
+    if ks.length = vs.length then
+      match sequence (parseKeyEach ks),
+            sequence (pickVals ks (parseEach 6 vs) (parseEach 1 vs)) with
+      | some ks', some vs' => some (.dict ks' vs')
+      | _, _ => none
+    else none
+  | .call f args kwn kwv =>
+    if kwn.length = kwv.length then
+      match parseDoc 15 f, sequence (parseArgEach args), sequence (parseEach 1 kwv) with
+      | some f', some args', some kwv' => some (.call f' args' kwn kwv')
+      | _, _, _ => none
+    else none
+  | .subscript _ (.bare []) => none
+  | .subscript v (.bare [.starred x]) =>
+    match parseDoc 15 v, parseDoc 1 x with
+    | some v', some x' => some (.subscript v' (.tuple [.starred x'] false))
+    | _, _ => none
+  | .subscript v (.bare [d]) =>
+    match parseDoc 15 v, parseDoc 1 d with
+    | some v', some d' => some (.subscript v' d')
+    | _, _ => none
+  | .subscript v (.bare ds) =>
+    match parseDoc 15 v, sequence (parseArgEach ds) with
+    | some v', some ds' => some (.subscript v' (.tuple ds' false))
+    | _, _ => none
+  | .subscript v (.starred x) =>
+    match parseDoc 15 v, parseDoc 1 x with
+    | some v', some x' => some (.subscript v' (.tuple [.starred x'] false))
+    | _, _ => none
+  | .subscript v idx =>
+    match parseDoc 15 v, parseDoc 1 idx with
+    | some v', some i' => some (.subscript v' i')
+    | _, _ => none
+  | .starred d => if n = 0 then (parseDoc 6 d).map Doc.starred else none
+def parseEach (n : Nat) : List Doc → List (Option Doc)
+  | [] => []
+  | d :: ds => parseDoc n d :: parseEach n ds
+/-- call arguments / index lists: `'*' expression` or an expression -/
+def parseArgEach : List Doc → List (Option Doc)
+  | [] => []
+  | .starred x :: ds => (parseDoc 1 x).map Doc.starred :: parseArgEach ds
+  | d :: ds => parseDoc 1 d :: parseArgEach ds
+def parseKeyEach : List Doc → List (Option Doc)
+  | [] => []
+  | .absent :: ks => some .absent :: parseKeyEach ks
+  | k :: ks => parseDoc 1 k :: parseKeyEach ks
+end
+
 end Pyval
